@@ -54,8 +54,15 @@ class Opts:
         self.__dict__.update(kw)
 
 
+DEFAULT_NAMES = None   # C19 installs a hostile name provider here
+EXCLUDE_KINDS = set()  # C19: kinds whose type text needs `std` (the definitions live in a no_std crate)
+
+
 def random_type(rng, traits, opts=None):
     o = opts or Opts()
+    if o.names is None and DEFAULT_NAMES is not None:
+        o.names = DEFAULT_NAMES
+        o.raw_idents = 0.0
     ts = list(traits)
     tset = set(ts)
     kind = o.kind or rng.choice(["struct", "enum", "enum"])
@@ -105,6 +112,8 @@ def random_type(rng, traits, opts=None):
         if k.key == "P" and not partial_ok:
             continue
         if o.kinds is not None and k.key not in o.kinds:
+            continue
+        if k.key in EXCLUDE_KINDS:
             continue
         if "Default" in derives and "Default" not in k.caps:
             continue
